@@ -421,6 +421,32 @@ def slot_alternatives(e, j, code, fs, opsize, mode):
     return regs[DEFAULT_REG[j] % len(regs)], alts
 
 
+PAIRWISE = False          # thorough tier: additionally vary TWO slots at a time (REX/VEX R, X, B, vvvv and is4 come from different operands)
+PAIR_REGS = {0, 4, 5, 7, 8, 12, 13, 15}
+
+
+def pair_subset(alts):
+    """the alternatives of a slot that take part in pairwise variation: registers on both sides of 8 and the special numbers 4/5/12/13,
+    every memory shape, the first two immediates"""
+    out, imm_n, hb = [], 0, 0
+    for a in alts:
+        if a.kind == "reg":
+            if a.fam == "highbyte":
+                hb += 1
+                if hb > 1:
+                    continue
+            elif a.num not in PAIR_REGS:
+                continue
+            out.append(a)
+        elif a.kind == "imm":
+            imm_n += 1
+            if imm_n <= 2:
+                out.append(a)
+        else:
+            out.append(a)
+    return out
+
+
 def instances(e, mode):
     """[Inst] for one entry: every alternative of every slot with the other slots at their default, for every operand size"""
     if mode == "x64" and flag(e, "X86_ONLY"):
@@ -441,6 +467,17 @@ def instances(e, mode):
                 c = list(defaults)
                 c[j] = a
                 combos.append(c)
+        if PAIRWISE:
+            subs = [pair_subset(a) for a in alts]
+            for j in range(len(sl)):
+                for k in range(j + 1, len(sl)):
+                    if len(subs[j]) < 2 and len(subs[k]) < 2:
+                        continue
+                    for a in subs[j]:
+                        for b in subs[k]:
+                            c = list(defaults)
+                            c[j], c[k] = a, b
+                            combos.append(c)
         for c in combos:
             it = Inst(e, mode, c)
             if it.line not in seen:
@@ -1143,8 +1180,10 @@ def collect(limit=None, log=lambda *a: None):
     return insts, entries, per_entry
 
 
-def run(limit=None, verbose=False):
+def run(limit=None, verbose=False, pairwise=False):
     """the whole sweep → report (dict, JSON-serialisable)"""
+    global PAIRWISE
+    PAIRWISE = pairwise
     t0 = time.time()
     log = (lambda *a: print(f"[x64sweep {time.time() - t0:6.1f}s]", *a, flush=True)) if verbose else (lambda *a: None)
     insts, entries, per_entry = collect(limit, log)
@@ -1352,9 +1391,11 @@ def run(limit=None, verbose=False):
 
 
 def main(argv):
+    pw = "--pairwise" in argv
+    argv = [a for a in argv if a != "--pairwise"]
     lim = int(argv[1]) if len(argv) > 1 else None
-    rep = run(lim, verbose=True)
-    with open(REPORT, "w") as f:
+    rep = run(lim, verbose=True, pairwise=pw)
+    with open(REPORT if not pw else "/tmp/x64sweep_pairwise.json", "w") as f:
         json.dump(rep, f, indent=1)
     c = rep["counts"]
     print(json.dumps({k: v for k, v in c.items() if k != "per_mode"}, indent=1))
